@@ -11,6 +11,7 @@ CONSTANTS
   DecFails = {FALSE}
   MaxCb = 2
   MaxTrig = 2
+  MaxFire = 3
   CbOn = {1, 2}
   TimerOn = {1, 2}
   Ops = {"request", "complete", "abort", "cabort", "qabort", "gabort", "settle"}
